@@ -12,7 +12,7 @@ for pid in sorted(b):
     if only and pid not in only:
         continue
     for i, r in enumerate(b[pid][tier]["runs"]):
-        if r.get("expect") or r.get("solver"):
+        if r.get("expect") or "solver" in r:
             continue
         args = ["/verif/bin/symgo", "run", "--harness", r["harness"], "--budget", str(budget)]
         for k, v in r["params"].items():
